@@ -54,7 +54,7 @@ let str_oid = function None -> "-" | Some n -> string_of_int (int_of_n n)
 let print_graph oc (g : graph) =
   let nodes = List.sort (fun (a, _) (b, _) -> compare (int_of_n a) (int_of_n b)) g.g_nodes in
   List.iter (fun (id, nd) ->
-    Printf.fprintf oc "n %d g=%s r=%d t=%d i=%s o=%s c=%s\n" (int_of_n id) (str_oid nd.n_grp)
+    Printf.fprintf oc "n %d k=%s g=%s r=%d t=%d i=%s o=%s c=%s\n" (int_of_n id) (if nd.n_req = [] then "other" else "fwd") (str_oid nd.n_grp)
       (if int_of_n nd.n_ref > 0 then 1 else 0) (int_of_n nd.n_role)
       (String.concat "," (List.map str_oport nd.n_ins))
       (String.concat ";" (List.map (fun o ->
@@ -70,6 +70,69 @@ let print_graph oc (g : graph) =
     let l = List.sort compare (List.map (fun (n, p) -> (int_of_n n, int_of_nat p)) l) in   (* a set: canonical order *)
     Printf.fprintf oc "K %d d=%s,%s m=%s\n" (int_of_n id) (str_oid (clkdrv g id)) (str_oid (rstdrv g id))
       (String.concat "," (List.map (fun (n, p) -> Printf.sprintf "%d.%d" n p) l))) clocks
+
+let kind_of_tag (t : string) : kind =
+  let name, arg = match String.index_opt t ':' with
+    | Some k -> String.sub t 0 k, String.sub t (k + 1) (String.length t - k - 1)
+    | None -> t, "" in
+  match name with
+  | "fwd" -> KForward | "logic1" -> KLogic1 | "logic2" -> KLogic2
+  | "mux" -> KMux (nat_of_int (int_of_string arg))
+  | "reg" -> KReg | "cmp" -> KCompare
+  | "arith" -> KArith (nat_of_int (int_of_string arg))
+  | "shift" -> KShift
+  | "prio" -> KPrio (nat_of_int (int_of_string arg))
+  | "pinout" -> KPinOut (n_of_int (int_of_string arg))
+  | "rewire" ->
+      KRewire (List.map (fun s -> match split '.' s with
+        | [a; b] -> (nat_of_int (int_of_string a), n_of_int (int_of_string b))
+        | _ -> failwith "bad rewire range") (list_field ',' arg))
+  | "memport" -> (match split '.' arg with
+      | [a; b] -> KMemPort (n_of_int (int_of_string a), n_of_int (int_of_string b))
+      | _ -> failwith "bad memport")
+  | "memory" -> KMemory (n_of_int (int_of_string arg))
+  | _ -> KOther
+
+let parse_out s : outport =
+  match String.index_opt s ':' with
+  | None -> failwith ("bad out " ^ s)
+  | Some k ->
+      let ty = String.sub s 0 k and cs = String.sub s (k + 1) (String.length s - k - 1) in
+      let kd, wd = match split '.' ty with [a; b] -> int_of_string a, int_of_string b | _ -> failwith "bad type" in
+      { o_type = { ct_kind = n_of_int kd; ct_width = n_of_int wd }; o_cons = List.map port_of (list_field ',' cs) }
+
+type acc = { mutable nodes : (n * node) list; mutable groups : (n * group) list; mutable clocks : (n * nport list) list;
+             mutable drvs : (n * (n option * n option)) list; mutable kinds : (int * string) list }
+
+let finish (a : acc) : graph =
+  let mx l = List.fold_left (fun m (k, _) -> let v = int_of_n k in if v >= dangling then m else max m (v + 1)) 0 l in
+  { g_nodes = List.rev a.nodes; g_groups = List.rev a.groups; g_clocks = List.rev a.clocks; g_drv = List.rev a.drvs;
+    g_next = n_of_int (mx a.nodes); g_gnext = n_of_int (mx a.groups); g_cnext = n_of_int (mx a.clocks) }
+
+
+(* one dump line (n / G / K) into the accumulator *)
+let parse_dump_line (a : acc) (w : string list) : unit =
+  match w with
+  | "n" :: id :: rest ->
+      let k = match field_opt rest "k" with Some k -> k | None -> "other" in
+      let nd = { n_ins = List.map oport_of (list_field ',' (field rest "i"));
+                 n_outs = List.map parse_out (list_field ';' (field rest "o"));
+                 n_grp = oid_of (field rest "g");
+                 n_clks = List.map oid_of (list_field ',' (field rest "c"));
+                 n_ref = n_of_int (int_of_string (field rest "r"));
+                 n_req = kind_req (kind_of_tag k);
+                 n_role = n_of_int (match field_opt rest "t" with Some t -> int_of_string t | None -> 0) } in
+      a.kinds <- (int_of_string id, k) :: a.kinds;
+      a.nodes <- (id_of id, nd) :: a.nodes
+  | "G" :: id :: rest ->
+      a.groups <- (id_of id, { gr_parent = oid_of (field rest "p"); gr_nodes = List.map id_of (list_field ',' (field rest "m")) }) :: a.groups
+  | "K" :: id :: rest ->
+      a.clocks <- (id_of id, List.map port_of (list_field ',' (field rest "m"))) :: a.clocks;
+      let d = match field_opt rest "d" with
+        | Some d -> (match split ',' d with [x; y] -> (oid_of x, oid_of y) | _ -> failwith "bad d=")
+        | None -> (None, None) in
+      a.drvs <- (id_of id, d) :: a.drvs
+  | _ -> ()
 
 (* ---------------------------------------------------------------------------------------- *)
 (* T1                                                                                        *)
@@ -116,6 +179,56 @@ let replay infile outfile =
       match w with
       | "seq" :: _ -> g := empty_graph; skipping := false; output_string oc (line ^ "\n")
       | "endseq" :: _ -> skipping := false; output_string oc (line ^ "\n")
+      | "op" :: "copysubnet" :: _ ->
+          (* Circuit::copySubnet renumbers the clones; the model does not follow it.  The REAL state after the call is
+             imported, must satisfy the verified checker, and becomes the model state (reference counts of the nodes
+             that existed before are kept, the node id counter advances by two per clone as in the C++). *)
+          let rest = List.filter (fun t -> t <> "!throw") (List.tl w) in
+          let thrown = List.mem "!throw" w in
+          let a = { nodes = []; groups = []; clocks = []; drvs = []; kinds = [] } in
+          let buf = Buffer.create 1024 in
+          (try
+            let fin = ref false in
+            while not !fin do
+              let l = input_line ic in
+              if l = "end" then fin := true else (Buffer.add_string buf l; Buffer.add_char buf '\n'; parse_dump_line a (words l))
+            done
+          with End_of_file -> ());
+          let imp = finish a in
+          let old = !g in
+          let fresh = List.filter (fun (id, _) -> not (List.mem_assoc id old.g_nodes)) imp.g_nodes in
+          let k = List.length fresh in
+          let nodes = List.map (fun (id, nd) -> match List.assoc_opt id old.g_nodes with
+                                | Some o -> (id, { nd with n_ref = o.n_ref }) | None -> (id, { nd with n_ref = N0 })) imp.g_nodes in
+          let next = n_of_int (int_of_n old.g_next + 2 * k) in
+          let g' = { imp with g_nodes = nodes; g_next = (if thrown then old.g_next else next); g_gnext = old.g_gnext } in
+          bump "copysubnet"; if thrown then bump "refused:copysubnet";
+          Printf.fprintf oc "op %s%s\n" (String.concat " " rest) (if thrown then " !throw" else "");
+          Buffer.output_buffer oc buf;
+          if not (invd_check g') then (output_string oc "IMPORTED-STATE-INV-FALSE\n"; bump "import-inv-false");
+          output_string oc "end\n";
+          g := g'
+      | "op" :: "clone" :: n :: _ ->
+          (* Circuit::createUnconnectedClone, replayed with proven operations: createNode with the shape of the original
+             (or the driver-node constructor), its output types one by one (copyBaseToClone), root group *)
+          let id = id_of n in
+          let ok = ref true in
+          let stepc o = (if not (op_pre !g o) then ok := false); g := step !g o in
+          (match List.assoc_opt id (!g).g_nodes with
+           | None -> ok := false
+           | Some nd ->
+               let nw = (!g).g_next in
+               let role = int_of_n nd.n_role in
+               if role = 0 then
+                 stepc (OCreate (nat_of_int (List.length nd.n_ins), nat_of_int (List.length nd.n_outs), nat_of_int (List.length nd.n_clks), nd.n_req, Some N0))
+               else stepc (OCreateDriver (role = 1, Some N0));
+               List.iteri (fun i o -> stepc (OSetType ((nw, nat_of_int i), o.o_type))) nd.n_outs);
+          bump "clone"; if not !ok then bump "refused:clone";
+          Printf.fprintf oc "op clone %s%s\n" n (if !ok then "" else " !throw");
+          print_graph oc !g;
+          if not (invd_check !g) then (output_string oc "MODEL-INV-FALSE\n"; bump "model-inv-false");
+          output_string oc "end\n";
+          skipping := true
       | "op" :: rest ->
           let rest = List.filter (fun t -> t <> "!throw") rest in
           let o = parse_op rest in
@@ -137,44 +250,6 @@ let replay infile outfile =
 (* ---------------------------------------------------------------------------------------- *)
 (* T2                                                                                        *)
 (* ---------------------------------------------------------------------------------------- *)
-let kind_of_tag (t : string) : kind =
-  let name, arg = match String.index_opt t ':' with
-    | Some k -> String.sub t 0 k, String.sub t (k + 1) (String.length t - k - 1)
-    | None -> t, "" in
-  match name with
-  | "fwd" -> KForward | "logic1" -> KLogic1 | "logic2" -> KLogic2
-  | "mux" -> KMux (nat_of_int (int_of_string arg))
-  | "reg" -> KReg | "cmp" -> KCompare
-  | "arith" -> KArith (nat_of_int (int_of_string arg))
-  | "shift" -> KShift
-  | "prio" -> KPrio (nat_of_int (int_of_string arg))
-  | "pinout" -> KPinOut (n_of_int (int_of_string arg))
-  | "rewire" ->
-      KRewire (List.map (fun s -> match split '.' s with
-        | [a; b] -> (nat_of_int (int_of_string a), n_of_int (int_of_string b))
-        | _ -> failwith "bad rewire range") (list_field ',' arg))
-  | "memport" -> (match split '.' arg with
-      | [a; b] -> KMemPort (n_of_int (int_of_string a), n_of_int (int_of_string b))
-      | _ -> failwith "bad memport")
-  | "memory" -> KMemory (n_of_int (int_of_string arg))
-  | _ -> KOther
-
-let parse_out s : outport =
-  match String.index_opt s ':' with
-  | None -> failwith ("bad out " ^ s)
-  | Some k ->
-      let ty = String.sub s 0 k and cs = String.sub s (k + 1) (String.length s - k - 1) in
-      let kd, wd = match split '.' ty with [a; b] -> int_of_string a, int_of_string b | _ -> failwith "bad type" in
-      { o_type = { ct_kind = n_of_int kd; ct_width = n_of_int wd }; o_cons = List.map port_of (list_field ',' cs) }
-
-type acc = { mutable nodes : (n * node) list; mutable groups : (n * group) list; mutable clocks : (n * nport list) list;
-             mutable drvs : (n * (n option * n option)) list; mutable kinds : (int * string) list }
-
-let finish (a : acc) : graph =
-  let mx l = List.fold_left (fun m (k, _) -> let v = int_of_n k in if v >= dangling then m else max m (v + 1)) 0 l in
-  { g_nodes = List.rev a.nodes; g_groups = List.rev a.groups; g_clocks = List.rev a.clocks; g_drv = List.rev a.drvs;
-    g_next = n_of_int (mx a.nodes); g_gnext = n_of_int (mx a.groups); g_cnext = n_of_int (mx a.clocks) }
-
 let diagnose (g : graph) (a : acc) : string =
   let parts = [ "ids", ids_check g; "edges-fwd", edges_fwd_check g; "edges-bwd", edges_bwd_check g;
                 "groups-fwd", groups_fwd_check g; "groups-bwd", groups_bwd_check g; "parents", parents_check g;
@@ -203,29 +278,13 @@ let check_file file =
       match w with
       | "dump" :: rest -> tag := String.concat " " rest; cur := Some { nodes = []; groups = []; clocks = []; drvs = []; kinds = [] }
       | "SKIP" :: _ -> Printf.printf "SKIPPED %s\n" line
-      | "n" :: id :: rest ->
+      | ("n" | "G" | "K") :: _ ->
           (match !cur with None -> () | Some a ->
-            let k = match field_opt rest "k" with Some k -> k | None -> "other" in
-            let nd = { n_ins = List.map oport_of (list_field ',' (field rest "i"));
-                       n_outs = List.map parse_out (list_field ';' (field rest "o"));
-                       n_grp = oid_of (field rest "g");
-                       n_clks = List.map oid_of (list_field ',' (field rest "c"));
-                       n_ref = n_of_int (int_of_string (field rest "r"));
-                       n_req = kind_req (kind_of_tag k);
-                       n_role = n_of_int (match field_opt rest "t" with Some t -> int_of_string t | None -> 0) } in
-            a.kinds <- (int_of_string id, k) :: a.kinds;
-            bump ("kind:" ^ (match String.index_opt k ':' with Some j -> String.sub k 0 j | None -> k));
-            a.nodes <- (id_of id, nd) :: a.nodes)
-      | "G" :: id :: rest ->
-          (match !cur with None -> () | Some a ->
-            a.groups <- (id_of id, { gr_parent = oid_of (field rest "p"); gr_nodes = List.map id_of (list_field ',' (field rest "m")) }) :: a.groups)
-      | "K" :: id :: rest ->
-          (match !cur with None -> () | Some a ->
-            a.clocks <- (id_of id, List.map port_of (list_field ',' (field rest "m"))) :: a.clocks;
-            let d = match field_opt rest "d" with
-              | Some d -> (match split ',' d with [x; y] -> (oid_of x, oid_of y) | _ -> failwith "bad d=")
-              | None -> (None, None) in
-            a.drvs <- (id_of id, d) :: a.drvs)
+            (match w with "n" :: _ :: rest ->
+               let k = match field_opt rest "k" with Some k -> k | None -> "other" in
+               bump ("kind:" ^ (match String.index_opt k ':' with Some j -> String.sub k 0 j | None -> k))
+             | _ -> ());
+            parse_dump_line a w)
       | "end" :: _ ->
           (match !cur with None -> () | Some a ->
             let g = finish a in
